@@ -79,9 +79,11 @@ func (s *Str) Len() int {
 }
 
 type Chan struct {
-	buf []Value
-	cap int
+	buf    []Value
+	cap    int
 	closed bool
+	seq    int // rendezvous bookkeeping (goroutine mode)
+	taken  int
 }
 
 type Bad struct{}
